@@ -165,6 +165,8 @@ def triggers(stmt) -> set:
     ``bool-leaf-pred``   a registered filter holds a non-predicate boolean operand
     ``filter-not``       a registered filter holds a negation
     ``cross-join``       cross join
+    ``eq-join-statement-refs`` join on a bare equality between elements of two references of nested statements (its python
+                         truth value compares the nested statements recursively)
     ``direct-query-over-set`` a query directly over a set operation (not through a reference)
     ``star-over-ref-set`` select-all over a reference of a set operation (``Set.features`` lists both operands' features)
     ``abs``              ``function.Abs`` (alchemy maps it to ``operator.abs`` which SQLAlchemy elements do not implement)
@@ -174,7 +176,12 @@ def triggers(stmt) -> set:
     ``eq-join``          join on a bare equality (its columns are not registered)
     """
     found = set()
+    refs = A.refs_of(stmt)
     for n in A.walk(stmt):
+        if n.get('t') == 'join' and n.get('cond') is not None and is_bare_eq(n['cond']):
+            names = {x['ref'] for x in A.walk(n['cond']) if x.get('f') == 'elem'}
+            if sum(1 for r in names if r in refs and refs[r]['src']['t'] in ('query', 'set')) >= 2:
+                found.add('eq-join-statement-refs')
         if n.get('f') == 'not':
             found.add('not')
             if n['x'].get('f') == 'cmp' and n['x']['op'] in ('eq', 'ne'):
@@ -293,7 +300,8 @@ def _null_supplied(origin, table) -> bool:
     joins = []
     _joins(origin, joins)
     for j in joins:
-        sides = {'left': [j['right']], 'right': [j['left']], 'full': [j['left'], j['right']]}.get(j['kind'], [])
+        # a cross join counts as full: alchemy.Parser emits it as FULL OUTER JOIN ON true (C06 finding)
+        sides = {'left': [j['right']], 'right': [j['left']], 'full': [j['left'], j['right']], 'cross': [j['left'], j['right']]}.get(j['kind'], [])
         if any(_has_direct_table(side, table) for side in sides):
             return True
     return False
